@@ -117,6 +117,11 @@ TokenStart(V, x) ==
   LET c == {i \in Idx(V) : V.pos[i].sec = x.sec /\ V.pos[i].o <= x.o /\ x.o < End(V, i)}
   IN  IF c = {} THEN 0 - 1 ELSE V.pos[CHOOSE i \in c : TRUE].o
 SxKey(x, o) == [sec |-> x.sec, o |-> o, k |-> x.k, s1 |-> x.s1, s2 |-> x.s2, add |-> x.add, at |-> x.at]
+\* the order of CFI instructions matters only at one and the same offset
+CanonProc(p) ==
+  [p EXCEPT !.ins = {<<p.ins[q].o, p.ins[q].d,
+                       Cardinality({r \in 1..(q - 1) : p.ins[r].o = p.ins[q].o /\ p.ins[r].d = p.ins[q].d}),
+                       p.ins[q].v>> : q \in DOMAIN p.ins}]
 DriftOf(V, chunks, run) ==
   LET m == RunAll(V.P, chunks)
       M == IF m.err = "" THEN Canon(m, V.P) ELSE EmptyR
@@ -129,7 +134,8 @@ DriftOf(V, chunks, run) ==
       ELSE IF {SxKey(M.sx[j], M.sx[j].o) : j \in DOMAIN M.sx}
                  # {SxKey(R.sx[j], TokenStart(V, R.sx[j])) : j \in DOMAIN R.sx} THEN <<"sx", ToString(M.sx)>>
       ELSE IF M.nprox # R.nprox THEN <<"proxies", ToString(M.nprox)>>
-      ELSE IF Range(M.cfi) # Range(R.cfi) THEN <<"cfi", ToString(M.cfi)>>
+      ELSE IF {CanonProc(M.cfi[j]) : j \in DOMAIN M.cfi} # {CanonProc(R.cfi[j]) : j \in DOMAIN R.cfi}
+           THEN <<"cfi", ToString(M.cfi)>>
       ELSE <<>>
 Drift(X) ==
   LET a == DriftOf(X.Vw, <<WholeChunk(X.wtoks)>>, X.W)
@@ -146,7 +152,7 @@ KF_C12_1(V) ==
   /\ V.P.mips /\ EdgeMismatch(V) # {} /\ FreshOK(V)
   /\ \A i \in EdgeMismatch(V) :
         V.toks[i].k = "ret" /\ ObservedOut(V, i) = {EL(FreshNode, "branch", FALSE, FALSE)}
-  /\ \A e \in Edges(V.R) : e.ty # "ft" =>
+  /\ \A e \in V.E : e.ty # "ft" =>
         \E i \in Idx(V) : V.toks[i].k \in Terminators /\ V.pos[i].sec = e.s.sec /\ End(V, i) = e.s.o + e.s.n
 \* KF-C12-2: `.ascii ""` (an empty string literal) trips an assertion in
 \* _remove_empty_blocks instead of assembling to nothing.
